@@ -83,9 +83,9 @@ type Trace struct {
 	Alloc   int                    `json:"alloc"` // bytes allocated by the measured run (saturated)
 	NEv     int                    `json:"nev"`   // events counted by the measured run
 	NumTab  []NumEnt               `json:"numtab"`
-	Out     []int                  `json:"out"` // all bytes written to the sink
+	Out     []int                  `json:"out"`    // all bytes written to the sink
 	StrMut  int                    `json:"strmut"` // strings delivered by value whose bytes changed before the case ended
-	Raw     []int                  `json:"raw"` // the bytes the encoder itself wrote (Out additionally holds the driver's separators between JSON texts)
+	Raw     []int                  `json:"raw"`    // the bytes the encoder itself wrote (Out additionally holds the driver's separators between JSON texts)
 	Extra   map[string]interface{} `json:"extra,omitempty"`
 }
 
